@@ -361,10 +361,12 @@ func runC10(r *Report) {
 				why = "the size test is applied to an expression derived from the length, not to the decoded length itself (arithmetic on an attacker-chosen uint32 can wrap)"
 				continue
 			}
-			if c, isC := ConstInt(bo.Y); isC && ok1 && c == k1 {
+			if c, isC := ConstInt(bo.Y); isC && ok1 && c >= k1 && c <= 1<<24 {
+				// the decoder accepts every payload an encoder may emit (it may accept more: a lowered
+				// encoder limit still interoperates) and the allocation stays bounded by a constant
 				good = true
 			} else {
-				why = fmt.Sprintf("decoder cap %d differs from the encoders' cap %d: frames one side emits the other refuses", c, k1)
+				why = fmt.Sprintf("decoder cap %d is below the encoders' cap %d (or not a sane constant): frames one side emits the other refuses", c, k1)
 			}
 		}
 		lenOK := stripValue(ms.Len) == length || ms.Len == length
